@@ -88,14 +88,17 @@ class C17(Check):
         "one-element nodes, geometric-algebra nodes, a 13-level tree, shared sub-objects), "
         "Polynomial and Rational, all " + str(len(P.user_entries())) + " generated user classes "
         "(decorated, also with init=False / hash=False / undecorated / "
-        "legacy / mixed), (parent, position, child) nestings over one representative shape per "
+        "legacy / mixed) with expression-valued fields, plus "
+        + str(len(P.user_flat_entries("quick"))) + " (thorough "
+        + str(len(P.user_flat_entries())) + ") of them with str/int-only fields, (parent, position, child) nestings over one representative shape per "
         "class (quick: 3 field kinds -- plain field, tuple element, keyword value -- x 34 "
         "children = " + str(len(P.nest_entries("quick"))) + "; thorough: all "
         + str(len(P.nest_entries("thorough"))) + " (parent, position, child) triples), user "
         "nodes inside built-in nodes (" + str(len(P.user_nest_entries("quick"))) + " / "
         + str(len(P.user_nest_entries("thorough"))) + "), equal-but-differently-built variants (keyword arguments in reverse "
-        "order, as a plain dict, comparison operator by name; pickled in one form, rebuilt in "
-        "the other), CompiledExpressions (one per arithmetic shape x variable listing). Producer: "
+        "order, as a plain dict, comparison operator by name, repeated subtrees as one shared "
+        "object (vf.spec.build_shared) vs separate equal objects; pickled in one form, rebuilt "
+        "in the other), CompiledExpressions (one per arithmetic shape x variable listing). Producer: "
         "all " + str(len(PROD_HISTS)) + " sequences over {hash, ==, pickle} of length <= "
         + str(P.PROD_DEPTH) + " ending in pickle, each on a "
         "fresh object, x protocols 0-5 (quick: nestings under protocols 0, 2, 5 only); "
